@@ -8,6 +8,7 @@
   statement of `Agent.recv_bundle`.
 -/
 import DtnVerif.Lemmas.Crc
+import DtnVerif.Lemmas.Cbor
 import DtnVerif.Lemmas.CrcBurst
 import DtnVerif.Model.BundleDec
 import DtnVerif.Generated.Facts
@@ -156,6 +157,46 @@ def exFragSrc : Primary := ({ crcType := 1, ts := ⟨1, 1⟩, lifetime := 9 } : 
 def exFrag : Primary := { exFragSrc with flags := 1, fragOff := 0, totalLen := 40 }
 example : exFragSrc.checkCrc = true ∧ exFrag.checkCrc = false ∧ exFrag.updateCrc.checkCrc = true
     ∧ exFrag.updateCrc.crc ≠ exFragSrc.crc := by decide +kernel
+
+/-- The CRCs are computed when everything else is done: whatever the TX-chain steps do to the
+    bundle (encrypt a payload, add or alter blocks, touch the primary block — any functions
+    `Bundle → Bundle`, in any number), the bundle encoded afterwards passes every check. -/
+theorem C08_send_after_steps (steps : List (Bundle → Bundle)) (b : Bundle) :
+    ((steps.foldl (fun acc f => f acc) b).updateAllCrc).checkAllCrc = [] :=
+  C08_check_update_all _
+
+/-- … whereas CRCs computed *before* a step are those of other octets: a step replacing the payload
+    data (as an encryption does) after `updateAllCrc` leaves a block that fails its check. -/
+def exStepSrc : Bundle :=
+  { primary := { crcType := 0, ts := ⟨1, 1⟩, lifetime := 9 },
+    blocks := [ { typeCode := 1, blockNum := 1, crcType := 1, btsd := some (ascii "attack") } ] }
+def exEncrypt (b : Bundle) : Bundle :=
+  { b with blocks := b.blocks.map fun c =>
+      { c with btsd := c.btsd.map (fun d => d.map (fun x => x ^^^ 0x5a)) } }
+example : (exEncrypt exStepSrc.updateAllCrc).checkAllCrc = [1]
+    ∧ ((exEncrypt exStepSrc).updateAllCrc).checkAllCrc = [] := by decide +kernel
+
+/-! ### a text string in a byte-string slot is not the same field value -/
+
+/-- In a byte-string slot (block data, CRC value) the text string with octets `d` decodes to "no
+    value", the byte string with the same octets to `d`: flipping the major type of the head
+    (`40+n` ↔ `60+n`) changes the decoded field, even when `d` is valid UTF-8. -/
+theorem C08_text_not_bytes (d r : Bytes) (h : d.length < 2 ^ 64) :
+    decOptBstr (Cbor.encTstr d ++ r) = some (none, r)
+    ∧ decOptBstr (Cbor.encBstr d ++ r) = some (some d, r) := by
+  constructor
+  · have hh := Cbor.decHead_head 3 d.length (d ++ r) (by omega) h
+    have hlt : ¬ (d.length + r.length < d.length) := by omega
+    simp [decOptBstr, Cbor.decBstr, Cbor.decUint, Cbor.decTstr, Cbor.encTstr, List.append_assoc, hh, hlt]
+  · simp [decOptBstr, Cbor.decBstr_enc d r h]
+
+/-- block level: the payload `"hello world"` as a text string in a CRC-16 block decodes to a block
+    without data, which re-encodes differently and fails the CRC carried by the original block -/
+def exTextBlk : Canonical :=
+  ({ typeCode := 1, blockNum := 1, crcType := 1, btsd := some (ascii "hello world") } : Canonical).updateCrc
+example : exTextBlk.checkCrc = true ∧ exTextBlk.enc[5]? = some 0x4b
+    ∧ (decCanonical (exTextBlk.enc.set 5 0x6b)).map (fun x => (x.1.btsd, x.1.checkCrc))
+      = some (none, false) := by decide +kernel
 
 /-! ### a CRC field that is not a byte string of the right width is a CRC failure -/
 
